@@ -203,3 +203,18 @@ impl Pipeline {
         self.connect(from, to);
     }
 }
+
+#[cfg(feature = "verif-hooks")]
+impl Pipeline {
+    /// Verification hook: run `f` while the calling thread HOLDS the pipeline's graph lock, so that a
+    /// harness can make other threads meet a contended lock at a chosen moment (deterministically,
+    /// instead of hoping for a collision in a free-running race).
+    ///
+    /// # Panics
+    ///
+    /// If the pipeline lock is poisoned.
+    pub fn verif_with_graph_lock_held<R>(&self, f: impl FnOnce() -> R) -> R {
+        let _g = self.inner.lock().unwrap();
+        f()
+    }
+}
